@@ -383,9 +383,40 @@ func c10Describe(x any) *c10Type {
 	return T
 }
 
+// two configuration types whose nested struct types are different types with the same name (declared inside
+// functions, as table-driven code does): whatever is remembered about one must not be used for the other
+func c10LocalTypeA() any {
+	type c10Twin struct {
+		A int     `point:"a"`
+		B float64 `point:"b"`
+		C string  `point:"c"`
+	}
+	type c10LocalA struct {
+		ID     string   `node:"id"`
+		Parent string   `node:"parent"`
+		N      c10Twin  `point:"n"`
+		P      *c10Twin `point:"p"`
+	}
+	return c10LocalA{}
+}
+
+func c10LocalTypeB() any {
+	type c10Twin struct {
+		A int `point:"a"`
+	}
+	type c10LocalB struct {
+		ID     string   `node:"id"`
+		Parent string   `node:"parent"`
+		N      c10Twin  `point:"n"`
+		P      *c10Twin `point:"p"`
+	}
+	return c10LocalB{}
+}
+
 var c10Types = []*c10Type{
 	c10Describe(c10Scalars{}), c10Describe(c10Ptrs{}), c10Describe(c10Slices{}), c10Describe(c10Arrays{}),
-	c10Describe(c10Maps{}), c10Describe(c10Structs{}), c10Describe(c10Mixed{}), c10Describe(c10BigArray{}),
+	c10Describe(c10Maps{}), c10Describe(c10Structs{}), c10Describe(c10Mixed{}), c10Describe(c10LocalTypeA()),
+	c10Describe(c10LocalTypeB()), c10Describe(c10BigArray{}),
 }
 
 func c10TypeByName(n string) *c10Type {
